@@ -36,6 +36,42 @@ from typing import Optional, Union, List, Dict, FrozenSet, Any
 from typedpy import (Structure, Integer, String, Float, Boolean, Anything, Number, Enum, Array, Set, ImmutableSet,
                      Deque, Tuple, Map, AnyOf, PositiveInt, NegativeInt, NonPositiveInt, NonNegativeInt, PositiveFloat,
                      NegativeFloat, NonPositiveFloat, NonNegativeFloat, Positive, Negative, NonPositive, NonNegative)
+import itertools as _it
+
+
+def _ctr(start):        # default factories: stateful, so that "evaluated per instance" is observable
+    c = _it.count(start)
+    return lambda: next(c)
+
+
+def _fctr(start):
+    c = _it.count(start)
+    return lambda: next(c) + 0.5
+
+
+def _sctr(start):
+    c = _it.count(start)
+    return lambda: f"s{next(c)}"
+
+
+def _lctr(start):
+    c = _it.count(start)
+    return lambda: [next(c)]
+
+
+def _tctr(start):
+    c = _it.count(start)
+    return lambda: (next(c),)
+
+
+def _setctr(start):
+    c = _it.count(start)
+    return lambda: {next(c)}
+
+
+def _dctr(start):
+    c = _it.count(start)
+    return lambda: {"k": next(c)}
 """
 
 
@@ -416,16 +452,53 @@ def fill_lens(sp, default=None):
 KW_ALLOWED = ("finst", "lit", "bareInst", "call", "mapCall", "mapInst")
 
 
+def dflt_text(dflt):
+    """source text of a default: a literal, or the expression creating a fresh factory"""
+    return dflt["src"] if "src" in dflt else py_literal(dflt["v"])
+
+
+def is_factory(dflt):
+    return bool(dflt) and dflt["how"] in ("eqF", "kwF")
+
+
 def field_source(f):
     dflt = f.get("dflt")
-    kw = py_literal(dflt["v"]) if dflt and dflt["how"] == "kw" else None
+    kw = dflt_text(dflt) if dflt and dflt["how"] in ("kw", "kwF") else None
     text = render(f["ty"], kw)
     if f["mode"] == "ann":
         line = f"{f['name']}: {text}"
-        if dflt and dflt["how"] == "eq":
-            line += " = " + py_literal(dflt["v"])
+        if dflt and dflt["how"] in ("eq", "eqF"):
+            line += " = " + dflt_text(dflt)
         return line, text
     return f"{f['name']} = {text}", text
+
+
+def factory_for(m, rng):
+    """a stateful default factory whose products are all valid for meaning m: {'src', 'v' (first product)}"""
+    start = 0 if rng.random() < 0.15 else rng.choice([1, 7, 100])
+    t = m["x"] if m["m"] == "opt" else m
+    if t["m"] == "alt":
+        t = t["x"]
+    if t["m"] == "scalar":
+        k = t["k"]
+        if k in ("int", "any"):
+            return {"src": f"_ctr({start})", "v": start}
+        if k == "float":
+            return {"src": f"_fctr({start})", "v": {"f": [2 * start + 1, 2]}}
+        if k == "str":
+            return {"src": f"_sctr({start})", "v": f"s{start}"}
+        return None
+    int_elem = {"m": "scalar", "k": "int"}
+    if t["m"] == "coll" and t["x"] == int_elem and t["c"] in ("list", "tuple", "set"):
+        tag, fn = {"list": ("l", "_lctr"), "tuple": ("t", "_tctr"), "set": ("s", "_setctr")}[t["c"]]
+        return {"src": f"{fn}({start})", "v": {tag: [start]}}
+    if t["m"] == "bare" and t["c"] == "list":
+        return {"src": f"_lctr({start})", "v": {"l": [start]}}
+    if t["m"] == "dict" and t["x"] == {"m": "scalar", "k": "str"} and t["y"] == int_elem:
+        return {"src": f"_dctr({start})", "v": {"m": [["k", start]]}}
+    if t["m"] == "bareDict":
+        return {"src": f"_dctr({start})", "v": {"m": [["k", start]]}}
+    return None
 
 
 def variant_source(v):
@@ -477,6 +550,11 @@ def features(v, f, ann_len):
     d = f.get("dflt")
     if d and d["how"] == "kw" and not _truthy(d["v"]):
         out.append("falsy-default-kw")
+    cls_like = top
+    while cls_like["s"] in ("union", "pipe") and same_type_obj(cls_like["x"], cls_like["y"]):
+        cls_like = cls_like["x"]          # `Union[int, int]` / `int | int` IS `int`
+    if d and d["how"] == "eqF" and cls_like["s"] in ("builtin", "bareBuiltin", "dictBare") and _truthy(d["v"]):
+        out.append("default-factory-once")      # the annotation converts to a Field CLASS: factory called at definition
     res = []
     for x in out:
         if x not in res:
@@ -550,6 +628,8 @@ def field_variants(rng, vg, name, m, n_random, extra_tys=(), default=RANDOM_DEFA
         default = NODEF
         if rng.random() < (0.15 if has_none else 0.02):
             default = None
+        elif rng.random() < 0.12 and factory_for(m, rng):
+            default = dict(factory_for(m, rng), factory=True)
         elif default_capable(m) and rng.random() < 0.45:
             base = decl["fields"][0] if decl["k"] == "anyOf" else decl
             default = scalar_default(rng, vg, base)
@@ -566,13 +646,17 @@ def field_variants(rng, vg, name, m, n_random, extra_tys=(), default=RANDOM_DEFA
         hs = ["eq"] if mode == "ann" else []
         if ty["s"] in KW_ALLOWED:
             hs.append("kw")
+        if isinstance(default, dict) and default.get("factory"):
+            hs = [h + "F" for h in hs]
         return hs
 
     def add(ty, mode, how):
         f = {"name": name, "mode": mode, "ty": ty}
-        if how is not None:
+        if how is not None and how.endswith("F"):
+            f["dflt"] = {"how": how, "v": default["v"], "src": default["src"], "len": len(default["src"])}
+        elif how is not None:
             f["dflt"] = {"how": how, "v": default, "len": len(py_literal(default))}
-        kwtext = py_literal(default) if how == "kw" else None
+        kwtext = dflt_text(f["dflt"]) if how in ("kw", "kwF") else None
         fill_lens(f["ty"], kwtext)
         # a meaning with a None alternative is an optional field in every spelling: by itself where typedpy
         # documents that (typing / PEP-604 union with a None member), through `_optional` otherwise
@@ -667,8 +751,18 @@ def gen_case(rng, tier, ci, meanings=None, extra_tys=None, cap=None, defaults=No
             kws.append(others + [[nm, v]])
         kws.append(others)
     kws = [kw for kw in kws if _loadable(kw)]
+    fact = [f["name"] for f in ref if is_factory(f.get("dflt"))]
+    probe_kw = None
+    if fact:
+        # the products of a stateful factory differ from instance to instance by design: the value stream only keeps
+        # kwargs that pass those fields explicitly ("an explicit value wins"); what omitted fields receive is observed
+        # by the dedicated probe (3 instances, products relative to the first, mutation independence)
+        probe_kw = [kv for kv in (base or []) if kv[0] not in fact]
+        kws = [kw for kw in kws if all(any(k == n for k, _ in kw) for n in fact)]
     case = {"suite": "elab", "id_hint": ci, "meanings": [[nm, m] for nm, m in zip(names, meanings)],
             "variants": variants, "kws": kws[: (40 if tier == "quick" else 80)]}
+    if probe_kw is not None and _loadable(probe_kw):
+        case["probe_kw"] = probe_kw
     case["re"] = gen.re_table([decls, variants], case["kws"])
     return case
 
@@ -791,8 +885,178 @@ def default_cases(rng, tier):
     return cases
 
 
+def factory_cases(rng, tier):
+    """Directed stream: a default FACTORY (stateful counter) on every spelling of the declaration - as `= f` on a
+    builtin / typing / PEP-585 / PEP-604 annotation, on a Field class, on a Field instance, and as `default=f` -
+    for scalar, optional, alternative, list / tuple / dict meanings; observed by the 3-instance probe."""
+    int_, str_ = {"m": "scalar", "k": "int"}, {"m": "scalar", "k": "str"}
+    pool = [int_, str_, {"m": "scalar", "k": "float"}, {"m": "scalar", "k": "any"}, {"m": "opt", "x": int_},
+            {"m": "alt", "x": int_, "y": str_}, {"m": "coll", "c": "list", "x": int_},
+            {"m": "coll", "c": "tuple", "x": int_}, {"m": "coll", "c": "set", "x": int_},
+            {"m": "dict", "x": str_, "y": int_}, {"m": "bare", "c": "list"}, {"m": "bareDict"},
+            {"m": "opt", "x": {"m": "coll", "c": "list", "x": int_}}]
+    picks = pool if tier != "quick" else [int_, pool[6]] + rng.sample([p for p in pool if p not in (int_, pool[6])], 3)
+    other = {"m": "scalar", "k": rng.choice(["str", "int"])}
+    cases = []
+    for m in picks:
+        fac = factory_for(m, rng)
+        if fac is None:
+            continue
+        xs = [spell(m, rng, st) for st in ("builtin", "typing", "native", "inst", "call")]
+        xs = [x for i, x in enumerate(xs) if x not in xs[:i]]
+        cases.append(gen_case(rng, tier, len(cases), meanings=[m, other], extra_tys=[xs, ()], cap=60,
+                              defaults=[dict(fac, factory=True), NODEF]))
+    return cases
+
+
+# ------------------------------------------------------------------ Structure-valued fields (oracle only)
+
+STRUCT_PRELUDE = """
+
+class Owner(Structure):
+    name: str
+
+
+def _oone():
+    return lambda: Owner(name="nobody")
+
+
+def _olist():
+    return lambda: [Owner(name="nobody")]
+"""
+
+STRUCT_FAMILIES = {
+    # meaning -> (spellings of the annotation / right-hand side, needs `_optional`?)   {A} = annotation, {=} = assignment
+    "owner": ["a: Owner", "a = Owner", "a: Union[Owner]"],
+    "opt-owner": ["a: AnyOf[Owner, None] #opt", "a = AnyOf[Owner, None] #opt", "a: Optional[Owner]", "a: Union[Owner, None]",
+                  "a: Union[None, Owner]", "a: Owner | None", "a: None | Owner", "a: AnyOf[None, Owner] #opt"],
+    "owner-or-int": ["a: AnyOf[Owner, Integer]", "a: Union[Owner, int]", "a: Owner | int", "a: Owner | Integer",
+                     "a: AnyOf[Owner, int]", "a = AnyOf[Owner, Integer]"],
+    "int-or-owner": ["a: AnyOf[Integer, Owner]", "a: Union[int, Owner]", "a: int | Owner", "a: Integer | Owner",
+                     "a = Integer | Owner"],
+    "owners": ["a: Array[Owner]", "a = Array[Owner]", "a: list[Owner]", "a: List[Owner]", "a: Array(items=Owner)",
+               "a = Array(items=Owner)"],
+    "opt-owners": ["a: AnyOf[Array[Owner], None] #opt", "a: Optional[list[Owner]]", "a: list[Owner] | None",
+                   "a: None | list[Owner]", "a: Union[List[Owner], None]", "a: Optional[Array[Owner]]"],
+}
+STRUCT_FACTORY = {"owner": "_oone()", "opt-owner": "_oone()", "owners": "_olist()", "opt-owners": "_olist()"}
+
+
+def struct_cases(rng, tier):
+    """Oracle-only stream (Structure classes are not in the modelled spelling grammar): fields whose type is a
+    Structure class `Owner`, optional / alternative / list forms of it in every spelling, with no default and with a
+    default factory returning Structure instances (`= f`, and `default=f` where a call form exists)."""
+    fams = sorted(STRUCT_FAMILIES)
+    if tier == "quick":
+        fams = ["opt-owner", "owners"] + rng.sample([f for f in fams if f not in ("opt-owner", "owners")], 2)
+    cases = []
+    for fam in fams:
+        for with_factory in ([False, True] if fam in STRUCT_FACTORY else [False]):
+            variants = []
+            for sp in STRUCT_FAMILIES[fam]:
+                opt = sp.endswith("#opt")
+                decl = sp.replace(" #opt", "")
+                if with_factory:
+                    fsrc = STRUCT_FACTORY[fam]
+                    if decl.startswith("a = "):
+                        if not decl.endswith(")"):
+                            continue
+                        decl = decl[:-1] + f", default={fsrc})"
+                    else:
+                        decl = f"{decl} = {fsrc}"
+                for future in (False, True):
+                    variants.append({"future": future, "body": [decl, "b: str"] + (["_optional = ['a']"] if opt else []),
+                                     "site": "pep604-structure-first" if decl.startswith("a: Owner |") else "plain"})
+            cases.append({"suite": "elab", "oracle_only": True, "family": fam, "factory": with_factory,
+                          "variants": variants})
+    return cases
+
+
+def run_struct_case(case):
+    from typedpy import Serializer
+    out = []
+    for v in case["variants"]:
+        res = {}
+        _MOD_COUNTER[0] += 1
+        modname = f"_verif_c13_smod_{_MOD_COUNTER[0]}"
+        mod = types.ModuleType(modname)
+        sys.modules[modname] = mod
+        src = (("from __future__ import annotations\n" if v["future"] else "") + PRELUDE + STRUCT_PRELUDE
+               + "\n\nclass K(Structure):\n" + "".join(f"    {l}\n" for l in v["body"]))
+        res["src"] = "; ".join(v["body"]) + (" [future]" if v["future"] else "")
+        for clear in getattr(typing, "_cleanups", []):
+            clear()
+        try:
+            exec(compile(src, modname + ".py", "exec"), mod.__dict__)  # pylint: disable=exec-used
+            K, Owner = mod.K, mod.Owner
+            res["fields"] = sorted(K.get_all_fields_by_name())
+            res["required"] = sorted(K._required)
+            values = {"owner": Owner(name="x"), "dict": {"name": "x"}, "none": None, "int": 1, "str": "s",
+                      "owners": [Owner(name="x"), Owner(name="y")], "empty": [], "ints": [1], "mixed": [Owner(name="x"), 1]}
+            beh = {}
+            for tag, val in list(values.items()) + [("missing", None)]:
+                kw = {"b": "t"} if tag == "missing" else {"a": val, "b": "t"}
+                try:
+                    x = K(**kw)
+                    beh[tag] = json.dumps(Serializer(x).serialize(), sort_keys=True, default=repr)
+                except Exception as e:  # pylint: disable=broad-except
+                    beh[tag] = "raised " + err_name(e)
+            res["beh"] = beh
+            if case["factory"] and "a" in res["fields"]:
+                try:
+                    x1, x2 = K(b="t"), K(b="t")
+                    first = x1.a[0] if isinstance(x1.a, list) else x1.a
+                    second = x2.a[0] if isinstance(x2.a, list) else x2.a
+                    first.name = "alice"
+                    x3 = K(b="t")
+                    third = x3.a[0] if isinstance(x3.a, list) else x3.a
+                    res["factory"] = {"keeps_factory": callable(K.get_all_fields_by_name()["a"]._default),
+                                      "names after renaming the first instance's owner": [first.name, second.name, third.name]}
+                except Exception as e:  # pylint: disable=broad-except
+                    res["factory"] = {"err": err_name(e)}
+        except Exception as e:  # pylint: disable=broad-except
+            res["def_err"] = err_name(e)
+            res["msg"] = str(e)[:160]
+        finally:
+            sys.modules.pop(modname, None)
+        out.append(res)
+    return {"variants": out}
+
+
+def struct_oracle(case, impl):
+    fails, seen = [], set()
+    ref = impl["variants"][0]
+    for v, iv in zip(case["variants"], impl["variants"]):
+        site_ = v["site"]
+        diff = None
+        if ("def_err" in ref) != ("def_err" in iv):
+            diff = ("definition-error", f"raises {iv.get('def_err') or ref.get('def_err')} at class definition: {iv.get('msg') or ref.get('msg')}")
+        elif "def_err" not in iv:
+            for k, ph in (("fields", "field-dropped"), ("required", "required-differs"), ("factory", "default-factory-differs"),
+                          ("beh", "accept-reject-differs")):
+                if iv.get(k) != ref.get(k):
+                    diff = (ph, f"{k}: {json.dumps(iv.get(k))[:240]} vs {json.dumps(ref.get(k))[:240]}")
+                    break
+        if diff:
+            key = f"{diff[0]}:{'structure-' + site_ if site_ == 'plain' else site_}"
+            if key not in seen:
+                seen.add(key)
+                fails.append((key, f"[{case['family']}] {iv['src']} vs reference {ref['src']}: {diff[1]}"))
+        # documented semantics of a default factory, whatever the spelling: evaluated for every instance
+        fac = iv.get("factory")
+        if fac and "err" not in fac:
+            names = fac["names after renaming the first instance's owner"]
+            if not fac["keeps_factory"] or names != ["alice", "nobody", "nobody"]:
+                key = f"default-factory-shared:{'structure-' + site_ if site_ == 'plain' else site_}"
+                if key not in seen:
+                    seen.add(key)
+                    fails.append((key, f"[{case['family']}] {iv['src']}: the default factory is not evaluated per instance: {json.dumps(fac)}"))
+    return fails
+
+
 def gen_cases(rng, tier, n):
     return (directed_cases(rng, tier) + single_arg_cases(rng, tier) + default_cases(rng, tier)
+            + factory_cases(rng, tier) + struct_cases(rng, tier)
             + [gen_case(rng, tier, i) for i in range(n)])
 
 
@@ -821,7 +1085,60 @@ def define(v):
         raise
 
 
-def run_variant(v, kws, ctx):
+def _product_index(v):
+    """position of a factory product in its counter sequence"""
+    if isinstance(v, bool):
+        return None
+    if isinstance(v, (int, float)):
+        return int(v)
+    if isinstance(v, str) and v[:1] == "s" and v[1:].isdigit():
+        return int(v[1:])
+    if isinstance(v, (list, tuple, set, frozenset)) or hasattr(v, "__iter__") and not isinstance(v, (str, dict)):
+        xs = list(v)
+        return _product_index(xs[0]) if len(xs) == 1 else None
+    if isinstance(v, dict):
+        return _product_index(v.get("k"))
+    return None
+
+
+def factory_probe(cls, fields, probe_kw, ctx):
+    """what instances built WITHOUT the factory-default fields receive: 3 instances, products relative to the
+    first instance's, and whether mutating the first instance's value leaks into the others / later instances"""
+    out = {}
+    try:
+        args = {k: dump.load_value(x, ctx) for k, x in probe_kw}
+        insts = [cls(**args) for _ in range(3)]
+    except Exception as e:  # pylint: disable=broad-except
+        return {"err": err_name(e)}
+    by_name = cls.get_all_fields_by_name()
+    for f in fields:
+        nm = f["name"]
+        if nm not in by_name:
+            out[nm] = {"dropped": True}
+            continue
+        vals = [getattr(x, nm) for x in insts]
+        idx = [_product_index(x) for x in vals]
+        rec = {"keeps_factory": callable(getattr(by_name[nm], "_default", None)),
+               "relative": [i - idx[0] for i in idx] if None not in idx else [repr(x) for x in vals]}
+        try:     # mutation independence
+            before = dump.canon(dump.dump_value(getattr(insts[1], nm), ctx))
+            target = getattr(insts[0], nm)
+            if hasattr(target, "append"):
+                target.append(424242)
+            elif hasattr(target, "add"):
+                target.add(424242)
+            elif isinstance(target, dict):
+                target["zz"] = 424242
+            later = cls(**args)
+            rec["independent"] = (dump.canon(dump.dump_value(getattr(insts[1], nm), ctx)) == before
+                                  and "424242" not in json.dumps(dump.dump_value(getattr(later, nm), ctx)))
+        except Exception as e:  # pylint: disable=broad-except
+            rec["independent"] = "raised " + err_name(e)
+        out[nm] = rec
+    return out
+
+
+def run_variant(v, kws, ctx, probe_kw=None):
     from typedpy import Serializer
     res = {"src": variant_source(v)}
     try:
@@ -835,6 +1152,15 @@ def run_variant(v, kws, ctx):
             res["cls"] = norm_cls(dump.dump_class(cls, ctx))
         except Exception as e:  # pylint: disable=broad-except
             res["undumpable"] = f"{type(e).__name__}: {e}"[:200]
+        ffields = [f for f in v["fields"] if is_factory(f.get("dflt"))]
+        if ffields and "cls" in res:
+            # dump_class CALLS a factory default; report "the factory is kept" instead of one of its products
+            by_name = cls.get_all_fields_by_name()
+            res["cls"]["defaults"] = [[n, {"x": "factory"}] if n in by_name and callable(getattr(by_name[n], "_default", None))
+                                      and any(f["name"] == n for f in ffields) else [n, x]
+                                      for n, x in res["cls"]["defaults"]]
+        if ffields and probe_kw is not None:
+            res["factory"] = factory_probe(cls, ffields, probe_kw, ctx)
         ann = getattr(cls, "__annotations__", {})
         res["ann_text"] = {f["name"]: ann.get(f["name"]) for f in v["fields"]
                            if f["mode"] == "ann" and isinstance(ann.get(f["name"]), str)}
@@ -863,11 +1189,15 @@ def run_variant(v, kws, ctx):
 
 
 def run_impl(case):
+    if case.get("oracle_only"):
+        return run_struct_case(case)
     ctx = make_ctx()
-    return {"variants": [run_variant(v, case["kws"], ctx) for v in case["variants"]]}
+    return {"variants": [run_variant(v, case["kws"], ctx, case.get("probe_kw")) for v in case["variants"]]}
 
 
 def line(case, impl):
+    if case.get("oracle_only"):
+        return None
     return {"suite": "elab", "re": case.get("re", []),
             "variants": [{"future": v["future"], "fields": v["fields"]} for v in case["variants"]]}
 
@@ -937,10 +1267,12 @@ def field_features(case, model, i):
     return out
 
 
-PRIORITY = ["falsy-default-kw", "typing-union-duplicate", "typing-union-flattened"]
+PRIORITY = ["falsy-default-kw", "default-factory-once", "typing-union-duplicate", "typing-union-flattened"]
 
 CAUSES = {
     "definition-error": ["falsy-default-kw"],
+    "default-factory-differs": ["default-factory-once"],
+    "default-differs": ["default-factory-once"],
     "error-class-differs": ["typing-union-duplicate"],
 }
 
@@ -967,6 +1299,9 @@ def compare_variants(a, b):
             return "field-dropped", f"field sets differ: {fa} vs {fb}"
         if a["cls"]["required"] != b["cls"]["required"]:
             return "required-differs", f"_required {a['cls']['required']} vs {b['cls']['required']}"
+        if a.get("factory") != b.get("factory") and a.get("factory") is not None and b.get("factory") is not None:
+            return "default-factory-differs", (f"instances built without the field: {json.dumps(a['factory'])[:260]} vs "
+                                               f"{json.dumps(b['factory'])[:260]}")
         if a["cls"]["defaults"] != b["cls"]["defaults"]:
             return "default-differs", f"defaults {a['cls']['defaults']} vs {b['cls']['defaults']}"
     for j, (x, y) in enumerate(zip(a.get("beh", []), b.get("beh", []))):
@@ -1047,6 +1382,8 @@ def oracle(case, impl, model):
 
 
 def tags(case, impl, model):
+    if case.get("oracle_only"):
+        return ["oracle_only:struct:" + case["family"] + (":factory" if case["factory"] else "")]
     out = [f"fields:{len(case['meanings'])}", f"variants:{min(len(case['variants']) // 4 * 4, 40)}+"]
     for _, m in case["meanings"]:
         out.append("meaning:" + m["m"])
@@ -1067,10 +1404,15 @@ def depth_of(m):
 
 
 def nontrivial(case):
+    if case.get("oracle_only"):
+        return True
     return any(depth_of(m) >= 2 or m["m"] == "lit" for _, m in case["meanings"]) or len(case["meanings"]) > 1
 
 
 def describe(case, impl, model):
+    if case.get("oracle_only"):
+        return {"family": case["family"], "factory": case["factory"], "sources": [v["src"] for v in impl["variants"][:8]],
+                "reference": impl["variants"][0]}
     return {"meanings": case["meanings"],
             "sources": [[field_source(f)[0] for f in v["fields"]] + (["future"] if v["future"] else [])
                         for v in case["variants"][:6]],
